@@ -273,3 +273,57 @@ def load(script_rel):
     if not os.path.exists(path):
         raise AnalysisBroken("script vanished: " + script_rel)
     return parse(concise(path, incdir))
+
+
+def load_sub(module_rel, sub):
+    """op-tree of one sub of a module (compile phase only): perl -MO=Concise,<Module>::<sub> -e 'use <Module>;'"""
+    incdir = os.path.join(REPO, os.path.dirname(module_rel))
+    mod = os.path.splitext(os.path.basename(module_rel))[0]
+    if not os.path.exists(os.path.join(REPO, module_rel)):
+        raise AnalysisBroken("module vanished: " + module_rel)
+    env = dict(os.environ, PERL5LIB=incdir)
+    p = subprocess.run(["perl", "-MO=Concise,%s::%s" % (mod, sub), "-e", "use %s;" % mod], capture_output=True, text=True, env=env, cwd=incdir)
+    if "syntax OK" not in p.stderr or not p.stdout.strip():
+        raise AnalysisBroken("perl cannot compile %s::%s: %s" % (mod, sub, p.stderr[-300:]))
+    return parse(p.stdout)
+
+
+def push_table(root, array="parts"):
+    """{index of the target array reference in @_ : index of the source element of @<array> ('last' for $array[$#array])} for every
+    push(@{$_[K]}, $array[..]) of the sub; plus the list of source indices that are matched against a pattern (validation)"""
+    def src_index(op):
+        for k in walk(op):
+            if k.name == "aelemfast_lex" and (k.arg or "").startswith("@" + array):
+                m = re.search(r"key=(-?\d+)", k.flags or "")
+                return int(m.group(1)) if m else 0
+            if k.name == "aelem" and any(x.name == "av2arylen" for x in walk(k)) and any(x.name == "padav" and (x.arg or "").startswith("@" + array) for x in walk(k)):
+                return "last"
+        return None
+    table, matched = {}, []
+    for op in walk(root):
+        if op.name == "push":
+            tgt = None
+            kids = [k for k in op.kids if k.name not in ("pushmark", "ex-pushmark")]
+            if len(kids) < 2:
+                continue
+            for k in walk(kids[0]):
+                # @{$_[K]}: aelem(rv2av(gv[*_]), const[IV K])  or the folded form aelemfast[*_] key=K
+                if k.name == "aelem" and any(x.name == "gv" and (x.arg or "") == "*_" for x in walk(k)):
+                    cs = [x for x in k.kids if x.name == "const" and re.match(r"^IV -?\d+$", x.arg or "")]
+                    if cs:
+                        tgt = int(cs[0].arg.split()[1])
+                        break
+                if k.name == "aelemfast" and (k.arg or "") == "*_":
+                    m = re.search(r"key=(-?\d+)", k.flags or "")
+                    tgt = int(m.group(1)) if m else 0
+                    break
+            si = None
+            for kid in kids[1:]:
+                si = src_index(kid) if si is None else si
+            if tgt is not None and si is not None:
+                table.setdefault(tgt, []).append((si, op.line))
+        if op.name == "match" and op.kids:
+            si = src_index(op)
+            if si is not None:
+                matched.append((si, op.line))
+    return table, matched
